@@ -20,6 +20,11 @@ FixedTargets == { W3("a", <<"-", "-", "-">>, "b"), W3("a", <<".", ".", ".">>, "b
                   W3("a", <<"?">>, "b"), W3("a", <<":">>, "b"), W3("a", <<"|">>, "b"), W3("a", <<">">>, "b"), W3("a", <<"&", "x">>, "b"), W3("a", <<"*", "x">>, "b"),
                   W3("a", <<"!", "t">>, "b"), W3("a", <<"%", "Y">>, "b"), W3("a", <<"[", "x", "]">>, "b"), W3("a", <<"{", "x", "}">>, "b"), W3("a", <<"'">>, "b"),
                   W3("a", <<"\"">>, "b"), W3("a", <<",">>, "b"), W3("a", <<"k", ":">>, "b"), W3("a", <<"-", " ", "x">>, "b") }
+\* long words with a character that could be taken for syntax right at, before and after the sizes of the scanner's buffers
+Rep(c, k) == [i \in 1..k |-> c]
+LongTargets == UNION { { Rep("a", k) \o <<"#", "q">>, Rep("a", k) \o <<":", "q">>, Rep("a", k) \o <<" ", "b">>, Rep("a", k) \o <<"\t", "b">>, Rep("a", k - 1) \o <<"<u233>", "#", "q">> } :
+                      k \in {14, 15, 16, 17, 30, 31, 32, 33, 126, 127, 128, 129, 254, 255, 256, 257} }
+InitLong == t \in LongTargets /\ phase = "grow" /\ style = "" /\ ctxn = "" /\ ch = <<>> /\ eb = <<>> /\ ci = 0 /\ pad = 0
 InitFixed == t \in FixedTargets /\ phase = "grow" /\ style = "" /\ ctxn = "" /\ ch = <<>> /\ eb = <<>> /\ ci = 0 /\ pad = 0
 NonDefault == Cardinality({i \in 1..Len(ch) : ch[i] # 0 \/ eb[i] # 0})
 Grow == /\ phase = "grow" /\ Len(t) < N /\ \E c \in Sigma : t' = Append(t, c)
